@@ -397,8 +397,22 @@ func Queries(r *rand.Rand, keys []string, max int) []string {
 	add := func(s string) { m[s] = struct{}{} }
 	for _, k := range keys {
 		add(k)
-		for i := 0; i < len(k); i++ {
-			add(k[:i])
+		if len(k) <= 300 {
+			for i := 0; i < len(k); i++ {
+				add(k[:i])
+			}
+		} else {
+			// a long key: prefixes at both ends, around powers of two, and at random cuts
+			for i := 0; i < 32; i++ {
+				add(k[:i])
+				add(k[:len(k)-1-i])
+				add(k[:r.Intn(len(k))])
+			}
+			for p := 64; p < len(k); p *= 2 {
+				add(k[:p-1])
+				add(k[:p])
+				add(k[:p+1])
+			}
 		}
 		add(k + "\x00")
 		add(k + "\xff")
@@ -443,7 +457,20 @@ func Queries(r *rand.Rand, keys []string, max int) []string {
 	if len(qs) > max {
 		r.Shuffle(len(qs), func(i, j int) { qs[i], qs[j] = qs[j], qs[i] })
 		qs = qs[:max]
-		sort.Strings(qs)
+		// the indexed keys themselves are always asked (all of them when they are few, a sample otherwise): a
+		// sample of the derived strings alone may miss the one key a defect loses
+		keep := map[string]struct{}{}
+		for _, q := range qs {
+			keep[q] = struct{}{}
+		}
+		idx := r.Perm(len(keys))
+		if len(idx) > max/2+1 {
+			idx = idx[:max/2+1]
+		}
+		for _, i := range idx {
+			keep[keys[i]] = struct{}{}
+		}
+		qs = uniqSorted(keep)
 	}
 	return qs
 }
